@@ -21,12 +21,19 @@ TIE = ('correspondence: columnar model (m_construct, m_select, m_cat, m_sort_by,
        'm_todict/m_from_dict, m_to_rows) evaluated in Coq against the stored columns, rows and dict keys of the real objects')
 ASSUMPTIONS = ['npstructures RaggedArray and NumPy indexing/concatenation/promotion are modelled at their documented '
                'behaviour (flat data + row lengths; dtype join; int64->float64 rounds to nearest even)',
-               'np.argsort (default introsort) is stable for the table sizes generated (n <= 16 uses insertion sort)',
+               'np.argsort (default kind) is NOT assumed stable: for sort_by the correspondence accepts any result with the '
+               'model\'s column types, the same multiset of rows and a sorted key column (the model itself sorts stably)',
                'strings are NUL-free 7-bit ASCII; floats are multiples of 1/4 (exactly representable); '
                'Optional[int] columns hold ints only; nested tables are one level deep',
                'aliasing between a result and its operands is C20; here operands are re-observed for unchanged content']
-PARTIAL = ['C19_concat_rows_partial: int columns of magnitude >= 2^53 lose precision when concatenated with a float64 '
-           '(e.g. empty) column — refuted for the unguarded statement']
+PARTIAL = ['C19_concat_rows_partial: guard "int64 values below 2^53" — unguarded statement refuted (C19_concat_rows_refuted; '
+           'finding C19-int-column-promoted-to-float64)',
+           'C19_from_rows_roundtrip_pinned_partial: guard ">= 1 row and no nested-table field" — refuted outside it '
+           '(C19_from_rows_pinned_refuted; findings C19-from-entry-tuples-zero-rows, -nested-table)',
+           'C19_sort_by_model covers numeric key columns; sort_by on string-like columns raises on the pinned code '
+           '(finding C19-sort-by-string-column), on the flat encoded column it is tied by correspondence only',
+           'from_dict(todict t) / pandas round trip: modelled and compared per case (incl. dict keys); only the '
+           'dotted-name lemmas (C19_dict_names) are proved']
 PER_FILE = 20
 
 BASE_KINDS = ['int', 'opt', 'float', 'bool', 'str', 'id', 'list', 'dna', 'strand']
@@ -165,7 +172,11 @@ def _gen_prog(rng, sch, n0, n1, length, big=False):
                 m = n + 1 if rng.random() < 0.6 or n == 0 else n - 1
             col = _gen_col(rng, k, m, big)
             if c > 0.9 and m > 0 and k in ('dna', 'strand'):
-                col[rng.randrange(m)] = rng.choice(['AXG', 'N', 'A-']) if k == 'dna' else rng.choice(['x', '?', '+-', ''])
+                if k == 'strand' and m >= 2 and rng.random() < 0.4:
+                    i, j = rng.sample(range(m), 2)
+                    col[i], col[j] = col[i] + col[j], ''
+                else:
+                    col[rng.randrange(m)] = rng.choice(['AXG', 'N', 'A-']) if k == 'dna' else rng.choice(['x', '?', '+-', ''])
             prog.append(['replace', f, col])
         elif o == 'add':
             k = rng.choice(BASE_KINDS)
@@ -231,7 +242,13 @@ def generate(tier, seed):
         if k == 'dna':
             c['c0'][f][rng.randrange(n0)] = rng.choice(['AXG', 'N', 'AC-'])
         elif k == 'strand':
-            c['c0'][f][rng.randrange(n0)] = rng.choice(['x', '?', '+-'])
+            if n0 >= 2 and rng.random() < 0.5:
+                # two unacceptable entries whose symbols still add up to the number of rows
+                i, j = rng.sample(range(n0), 2)
+                c['c0'][f][i] = c['c0'][f][i] + c['c0'][f][j]
+                c['c0'][f][j] = ''
+            else:
+                c['c0'][f][rng.randrange(n0)] = rng.choice(['x', '?', '+-'])
         elif _is_nested(k):
             c['c0'][f][0] = c['c0'][f][0] + c['c0'][f][0][:1]
         else:
@@ -684,6 +701,14 @@ def _col_valid(k, col):
     return all(_cell_valid(k, v) for v in col)
 
 
+def _only_multichar_strand(k, col):
+    """the column is unacceptable ONLY because a flat-encoded (strand) entry is not exactly one symbol"""
+    if _is_nested(k):
+        return (len(set(len(c) for c in col)) == 1 and not _col_valid(k, col)
+                and all(_col_valid(sk, c) or _only_multichar_strand(sk, c) for (_, sk), c in zip(k[1], col)))
+    return k == 'strand' and not _col_valid(k, col) and all(ch in '+-.' for v in col for ch in v)
+
+
 def _deviations(case, o):
     """list of (step number, op, observation, tag) for steps whose observation is not what the list-of-tuples
     model expects; tag names the finding signature the step matches, or None"""
@@ -693,6 +718,12 @@ def _deviations(case, o):
     rows = lambda ob: [tuple(_val(c) for c in r) for r in ob['rows']]
     cur, t1 = rows(o['t0']), rows(o['t1'])
     dev = []
+    # construction of the operands: unacceptable arguments must have raised
+    for key, cols in (('t0', case['c0']), ('t1', case['c1'])):
+        bad = [(k, c) for (_, k), c in zip(sch, cols) if not _col_valid(k, c)]
+        if bad:
+            tag = 'C19-flat-encoded-column-multichar-entries' if all(_only_multichar_strand(k, c) for k, c in bad) else None
+            dev.append((-1, ['construct', key], o[key], tag))
     for i, (op, ob) in enumerate(zip(case['prog'], o['steps'])):
         n = len(cur)
         k = op[0]
@@ -744,6 +775,10 @@ def _deviations(case, o):
                 tag = 'C19-sort-by-string-column'
             elif k in ('catr', 'catl', 'cats', 'cat3', 'replace') and want[0] == 'tab' and got_rows is not None and _only_rounding(want[1], got_rows):
                 tag = 'C19-int-column-promoted-to-float64'
+            elif k == 'replace' and want[0] == 'err' and got_rows is not None and _only_multichar_strand(sch[op[1]][1], op[2]):
+                tag = 'C19-flat-encoded-column-multichar-entries'
+            elif k == 'add' and want[0] == 'err' and got_rows is not None and _only_multichar_strand(op[2], op[3]):
+                tag = 'C19-flat-encoded-column-multichar-entries'
             dev.append((i, op, ob, tag))
         if got_rows is not None:
             cur = got_rows
